@@ -12,7 +12,7 @@ from __future__ import annotations
 import ast
 from fractions import Fraction
 
-from .core import AnalysisError, loc, norm_src, walk_no_nested, dotted, str_const
+from .core import AnalysisError, loc, norm_src, walk_no_nested, dotted, str_const, Inliner
 from .symx import Interp, Obj, Path, PList, PDict, Unsupported, explore, Abort
 from .rat import Rat, K
 from .flow import Flow
@@ -131,8 +131,10 @@ def meat(index, rep):
                 loopvar = norm_src(f.target)
                 rng = norm_src(f.iter)
         ok = loopvar is not None and all(kw.get(a) == f"{b}[{loopvar}]" for a, b in pairs.items()) and rng.startswith("range(0, len(")
-        st = [s for s in walk_no_nested(g) if isinstance(s, ast.Assign) and norm_src(s.targets[0]) == f"slaughtered_meat_monthly[{loopvar}]"]
-        ok = ok and len(st) == 1
+        st = [s for s in walk_no_nested(g) if isinstance(s, ast.Assign) and isinstance(s.targets[0], ast.Subscript) and isinstance(s.targets[0].value, ast.Name)
+              and norm_src(s.targets[0].slice) == loopvar]
+        retn = [norm_src(r.value) for r in g.body if isinstance(r, ast.Return)]
+        ok = ok and len(st) == 1 and retn == [st[0].targets[0].value.id]
     rep.check(ok, rule, "monthly:element-m-from-month-m", "the monthly meat series does not take month m of each of the five slaughter arrays into entry m",
               loc=loc(MD, g))
     rep.require_min(rule, 10)
@@ -148,24 +150,30 @@ CHAIN = [
 
 
 def chain_of(fn):
-    """first if/elif chain over animal type/size in fn: [(test text, body)]"""
+    """first if/elif chain over animal type/size in fn: ([(test text with the loop variable written as `animal`, body)], loop variable)"""
+    import re
     for st in walk_no_nested(fn):
-        if isinstance(st, ast.If) and norm_src(st.test) == CHAIN[0][0]:
+        if isinstance(st, ast.If):
+            m = re.fullmatch(r"(\w+)\.animal_type == 'chicken'", norm_src(st.test))
+            if not m:
+                continue
+            var = m.group(1)
             out = []
             cur = st
             while True:
-                out.append((norm_src(cur.test), cur.body))
+                out.append((re.sub(rf"\b{var}\.", "animal.", norm_src(cur.test)), cur.body))
                 if len(cur.orelse) == 1 and isinstance(cur.orelse[0], ast.If):
                     cur = cur.orelse[0]
                 else:
                     out.append(("else", cur.orelse))
                     break
-            return out
-    return None
+            return out, var
+    return None, None
 
 
 def klass(index, rep):
     rule = "C05.CLASS"
+    produced_vars = {}
     sites = {
         "CalculateFeedAndMeat.get_meat_produced": (ANIM, {"CHICKEN": "chickens_killed_for_meat", "PIG": "pigs_killed_for_meat",
                                                           "SMALL": "animals_killed_for_meat_small_nonchicken",
@@ -180,30 +188,38 @@ def klass(index, rep):
     }
     for q, (rel, lane_names) in sites.items():
         fn = index.func(rel, q)
-        ch = chain_of(fn)
+        ch, var = chain_of(fn)
         if ch is None:
             raise AnalysisError(f"{q}: species/size chain not found")
         tests = [t for t, _ in ch if t != "else"]
         rep.check(tests == [t for t, _ in CHAIN], rule, f"{q}:chain-predicates",
                   f"the species -> size-class predicates differ from the reference chain: {tests}", loc=loc(rel, fn))
+        arm_var = {}
         for (t, body), (_, lane) in zip(ch, CHAIN):
             txt = " ".join(norm_src(s) for s in body)
             want = lane_names[lane]
+            slaughter = f"np.array({var}.slaughter)"
             if q.endswith("get_animal_meat_dictionary"):
-                ok = f"{want}=np.array(animal.slaughter)" in txt.replace(" ", "").replace("np.array(animal.slaughter)", "np.array(animal.slaughter)") \
-                    and txt.count("np.array(animal.slaughter)") == 1
+                ok = f"{want}={slaughter}" in txt.replace(" ", "") and txt.count(slaughter) == 1
             elif q.endswith("get_meat_produced"):
-                ok = (txt.startswith(f"{want} = np.array(animal.slaughter)") or txt.startswith(f"{want} += np.array(animal.slaughter)")) and len(body) == 1
+                # the arm accumulates this animal's slaughter series into ONE array; which array is learnt here and checked against the return order
+                st0 = body[0] if len(body) == 1 else None
+                tgt = st0.targets[0] if isinstance(st0, ast.Assign) and len(st0.targets) == 1 else (st0.target if isinstance(st0, ast.AugAssign) else None)
+                ok = isinstance(tgt, ast.Name) and norm_src(st0.value) == slaughter and (isinstance(st0, ast.Assign) or isinstance(st0.op, ast.Add))
+                if ok:
+                    arm_var[lane] = tgt.id
             else:
                 ok = f"kcals_per_head_meat_dict['{want}']" in txt and len(body) == 1
-            rep.check(ok, rule, f"{q}:{lane}", f"the {lane.lower()} arm does not feed the {lane.lower()} lane ({want}): {txt[:90]}", loc=loc(rel, body[0]))
-    # positional hand-off of the five arrays
+            rep.check(ok, rule, f"{q}:{lane}", f"the {lane.lower()} arm does not feed the {lane.lower()} lane: {txt[:90]}", loc=loc(rel, body[0]))
+        if q.endswith("get_meat_produced"):
+            produced_vars = dict(arm_var)
+    # positional hand-off of the five arrays: the return order is chicken, pig, small, medium, large
     gmp = index.func(ANIM, "CalculateFeedAndMeat.get_meat_produced")
     ret = [r for r in gmp.body if isinstance(r, ast.Return)][-1]
     order = [norm_src(e) for e in ret.value.elts]
-    want_order = ["chickens_killed_for_meat", "pigs_killed_for_meat", "animals_killed_for_meat_small_nonchicken",
-                  "animals_killed_for_meat_medium_nonpig", "animals_killed_for_meat_large"]
-    rep.check(order == want_order, rule, "get_meat_produced:return-order", f"returns {order}", loc=loc(ANIM, ret))
+    want_order = [produced_vars.get(l) for _, l in CHAIN]
+    rep.check(None not in want_order and len(set(want_order)) == 5 and order == want_order, rule, "get_meat_produced:return-order",
+              f"returns {order}, the arms fill {want_order} (chicken, pig, small, medium, large)", loc=loc(ANIM, ret))
     cm = index.func(PARAMS, "Parameters.calculate_meat_from_feed_results")
     unp = [s for s in cm.body if isinstance(s, ast.Assign) and isinstance(s.value, ast.Call) and dotted(s.value.func) == "feed_meat_object.get_meat_produced"]
     if len(unp) != 1:
@@ -221,10 +237,12 @@ def klass(index, rep):
             rep.check(got == wantv, rule, f"calculate_meat_from_feed_results:{c.func.attr}:slot-binding",
                       f"the five slaughter arrays (by return position) do not reach the like-positioned keyword parameters: {got}", loc=loc(PARAMS, c))
     # the monthly series and its running total are the same object, stored for the optimiser
-    st = {str_const(s.targets[0].slice): norm_src(s.value) for s in cm.body if isinstance(s, ast.Assign) and isinstance(s.targets[0], ast.Subscript)
-          and norm_src(s.targets[0].value) == "time_consts"}
-    rep.check(st.get("each_month_meat_slaughtered") == "each_month_meat_slaughtered" and
-              st.get("max_consumed_culled_kcals_each_month") == "each_month_meat_slaughtered.get_running_total_nutrients_sum().kcals", rule,
+    inl_cm = Inliner(cm)
+    st = {str_const(s.targets[0].slice): inl_cm.src(s.value) for s in cm.body if isinstance(s, ast.Assign) and isinstance(s.targets[0], ast.Subscript)
+          and isinstance(s.targets[0].value, ast.Name) and s.targets[0].value.id in [a.arg for a in cm.args.args]}
+    monthly = st.get("each_month_meat_slaughtered")
+    rep.check(monthly is not None and ".get_max_slaughter_monthly_after_distribution_waste(" in monthly and
+              st.get("max_consumed_culled_kcals_each_month") == monthly + ".get_running_total_nutrients_sum().kcals", rule,
               "time_consts:monthly-and-running-total-of-the-same-series", "the running slaughter total is not computed from the stored monthly series",
               loc=loc(PARAMS, cm))
     rep.require_min(rule, 20)
@@ -287,10 +305,10 @@ def milk(index, rep):
               "the monthly milk tonnage handed to the waste step is not milking herd x annual yield [kg] / 12 / 1000", loc=loc(PARAMS, c),
               detail=str(tc.d.get("milk_kcals")))
     im = index.func(PARAMS, "Parameters.init_meat_and_dairy_and_feed_from_breeding")
-    dp = [s for s in im.body if isinstance(s, ast.Assign) and norm_src(s.targets[0]) == "dairy_population"]
     call = [x for x in walk_no_nested(im) if isinstance(x, ast.Call) and dotted(x.func) == "self.calculate_non_meat_and_dairy_from_feed_results"]
-    ok = len(dp) == 1 and norm_src(dp[0].value) == "feed_meat_object.get_total_milk_bearing_animals()" and len(call) == 1 and \
-        norm_src(call[0].args[3]) == "dairy_population"
+    inl_im = Inliner(im)
+    herd_param = im.args.args[2].arg if len(im.args.args) > 2 else None
+    ok = len(call) == 1 and len(call[0].args) > 3 and herd_param is not None and inl_im.src(call[0].args[3]) == f"{herd_param}.get_total_milk_bearing_animals()"
     rep.check(ok, rule, "herd = this round's milk-bearing animals", "the milking herd is not get_total_milk_bearing_animals() of the same round's herd object",
               loc=loc(PARAMS, im))
     tm = index.func(ANIM, "CalculateFeedAndMeat.get_total_milk_bearing_animals")
@@ -303,10 +321,12 @@ def milk(index, rep):
 def feedge(index, rep, flow):
     rule = "C05.FEEDGE"
     fn = index.func(PARAMS, "Parameters.compute_parameters_third_round")
+    rets = [r for r in fn.body if isinstance(r, ast.Return) and isinstance(r.value, ast.Tuple)]
+    tc_name = norm_src(rets[-1].value.elts[1]) if rets and len(rets[-1].value.elts) >= 2 else None
     st = [s for s in fn.body if isinstance(s, ast.Assign) and isinstance(s.targets[0], ast.Subscript) and str_const(s.targets[0].slice) == "feed"
-          and norm_src(s.targets[0].value) == "time_consts_round3"]
+          and norm_src(s.targets[0].value) == tc_name]
     if len(st) != 1:
-        raise AnalysisError("third round: time_consts_round3['feed'] store not found")
+        raise AnalysisError("third round: store of the feed charge into the returned monthly constants not found")
     name = norm_src(st[0].value)
     org = flow.origin(fn, st[0].value, before=st[0].lineno)
     rep.check(org == {"src:create_feed_food_from_kcals"}, rule, "round3:feed = feed the round-3 herd used",
@@ -324,12 +344,17 @@ def feedge(index, rep, flow):
     aug = [s for s in walk_no_nested(fn) if isinstance(s, ast.AugAssign) and name in norm_src(s.target)]
     rep.check(not aug, rule, "round3:no-in-place-change", "the feed charge is changed in place", loc=loc(PARAMS, fn))
     # the herd object: when round 2 ran, a herd run on round 2's feed; otherwise round 1's herd object
-    herd_src = [(dotted(s.value.func) if isinstance(s.value, ast.Call) else norm_src(s.value)) for s in walk_no_nested(fn)
-                if isinstance(s, ast.Assign) and norm_src(s.targets[0]) == "feed_meat_object_third_round"]
-    rep.check(sorted(herd_src) == ["CalculateFeedAndMeat", "feed_meat_object_round1"], rule, "round3:herd-object",
-              f"the round-3 herd object comes from {herd_src}", loc=loc(PARAMS, fn))
     call = [c for c in walk_no_nested(fn) if isinstance(c, ast.Call) and dotted(c.func) == "self.init_meat_and_dairy_and_feed_from_breeding"]
-    rep.check(len(call) == 1 and norm_src(call[0].args[1]) == "feed_meat_object_third_round", rule, "round3:meat-from-the-same-herd",
+    inl = Inliner(fn)
+    params = [a.arg for a in fn.args.args]
+    alts = inl.alternatives(call[0].args[1]) if len(call) == 1 and len(call[0].args) > 1 else None
+    herd_src = sorted({("CalculateFeedAndMeat" if a.startswith("CalculateFeedAndMeat(") else a) for a in (alts or ["?"])})
+    r1 = [p_ for p_ in params if "feed_meat_object" in p_]
+    rep.check(len(r1) == 1 and herd_src == sorted(["CalculateFeedAndMeat", r1[0]]), rule, "round3:herd-object",
+              f"the round-3 herd object comes from {herd_src} (expected a herd run on round 2's feed, or round 1's herd object when round 2 was skipped)",
+              loc=loc(PARAMS, fn))
+    # the same object's feed_used is what is charged: slot 0 of that one call is the stored feed
+    rep.check(len(call) == 1 and inl.src(st[0].value) == inl.src(call[0]) + "[0]", rule, "round3:meat-from-the-same-herd",
               "meat/milk and feed of round 3 are not taken from the same herd object", loc=loc(PARAMS, fn))
     rep.require_min(rule, 5)
 
